@@ -326,6 +326,7 @@ fn dump(tcx: TyCtxt<'_>) {
     let no_hir = std::env::var("OXFACTS_NO_HIR").is_ok();
 
     adt_records(&mut cx);
+    hirdump::dump_sigs(&mut cx);
     let mut tyc = tyclass::TyClass::new(tcx);
     let mut nbodies = 0usize;
     for ldid in tcx.hir_body_owners() {
